@@ -544,7 +544,7 @@ def main(argv):
             exhaustive = s.get("exhaustive", False) if exhaustive in (None, True) else False
             exhaustive_what = s.get("exhaustive_what", "")
         nt_paths.append(res.nt_path)
-    distinct = merge_nt(nt_paths)
+    distinct = merge_nt(nt_paths) + sum((r.stats or {}).get("nontrivial_counted", 0) for r in results)
     wall = time.time() - t_start
     evidence = {
         "property_id": pid,
